@@ -58,8 +58,15 @@ class Flow:
             if k == "Block":
                 for st in n["stmts"]:
                     if st.get("k") == "Let":
+                        init = st.get("init")
+                        tup = peel(init) if isinstance(init, dict) else None
                         for b, path in _pat_paths(st["pat"]):
-                            self._set(b, dict(kind="let", src=st.get("init"), path=path, node=st))
+                            # `let (a, b) = (x, y)`: each binding has its own initialiser
+                            if path and path[0][0] == "tuple" and isinstance(tup, dict) and tup.get("k") == "Tup" and \
+                                    path[0][1] < len(tup.get("es") or []):
+                                self._set(b, dict(kind="let", src=tup["es"][path[0][1]], path=path[1:], node=st))
+                                continue
+                            self._set(b, dict(kind="let", src=init, path=path, node=st))
             elif k == "Match":
                 for arm in n["arms"]:
                     for b, path in _pat_paths(arm["pat"]):
